@@ -30,7 +30,9 @@ import (
 	"sync"
 	"time"
 
+	"github.com/wader/fq/internal/asciiwriter"
 	"github.com/wader/fq/internal/gojqx"
+	"github.com/wader/fq/internal/hexpairwriter"
 	"github.com/wader/fq/internal/mapstruct"
 	"github.com/wader/fq/internal/verifharness/hlib"
 	"github.com/wader/fq/pkg/interp"
@@ -133,7 +135,8 @@ func typeWord(tok string) string {
 		return tok
 	case strings.HasPrefix(tok, "O(indent"), strings.HasPrefix(tok, "O(unit"), strings.HasPrefix(tok, "O(line_bytes"), strings.HasPrefix(tok, "O(comma"),
 		strings.HasPrefix(tok, "O(display_bytes"), strings.HasPrefix(tok, "O(addrbase"), strings.HasPrefix(tok, "O(attribute_prefix"), strings.HasPrefix(tok, "O(keep_range"),
-		strings.HasPrefix(tok, "O(bits_format"):
+		strings.HasPrefix(tok, "O(bits_format"), strings.HasPrefix(tok, "O(byte_colors"), strings.HasPrefix(tok, "O(array_truncate"),
+		strings.HasPrefix(tok, "O(string_truncate"), strings.HasPrefix(tok, "O(depth"):
 		return "opts"
 	}
 	if i := strings.IndexAny(tok, ":("); i > 0 {
@@ -444,6 +447,7 @@ func main() {
 	directOps(o, pool)
 	optsfmtOps(o, pool)
 	previewOps(o)
+	writerOps(o, cfg, hlib.NewRand(cfg.Seed^0x5eed))
 
 	// the pseudo functions for the index / slice syntax on binaries
 	fns = append(fns, fnInfo{name: "@index", arity: 1, src: "syntax"}, fnInfo{name: "@slice", arity: 2, src: "syntax"})
@@ -456,8 +460,30 @@ func main() {
 		}
 		for _, l := range hlib.ReplayLines(cfg.Replay) {
 			ws := strings.Fields(l)
+			if len(ws) == 4 && (ws[0] == "asciiw" || ws[0] == "hexpw") {
+				// a column writer witness: re-run exactly this one
+				width, e1 := strconv.Atoi(ws[1])
+				start, e2 := strconv.Atoi(ws[2])
+				var chunks [][]int
+				ok := e1 == nil && e2 == nil
+				for _, ch := range strings.Split(ws[3], "|") {
+					var c []int
+					for _, x := range strings.Split(ch, ",") {
+						n, e := strconv.Atoi(x)
+						ok = ok && e == nil && n >= 0 && n < 1<<20
+						c = append(c, n)
+					}
+					chunks = append(chunks, c)
+				}
+				if ok {
+					writerCase(o, ws[0], width, start, chunks)
+				} else {
+					o.Case(l, "badcase")
+				}
+				continue
+			}
 			if len(ws) < 3 || ws[0] != "call" {
-				continue // direct ops are always re-run in full above
+				continue // the other direct ops are always re-run in full above
 			}
 			fi, ok := byKey[ws[1]]
 			if !ok {
@@ -531,6 +557,16 @@ func main() {
 		op := "call " + f.key() + " " + strings.Join(toks, " ")
 		o.Case(op, c.obs)
 		perFn[c.fn]++
+		for _, t := range toks {
+			switch {
+			case strings.HasPrefix(t, "O(byte_colors"):
+				o.Stat("dim_colour_line_geometry_cases", 1)
+			case strings.HasPrefix(t, "O(bits_format") || strings.Contains(t, ";bits_format="):
+				o.Stat("dim_bits_format_x_member_cases", 1)
+			case strings.HasPrefix(t, "O(string_truncate") || strings.HasPrefix(t, "O(array_truncate") || strings.HasPrefix(t, "O(depth="):
+				o.Stat("dim_truncation_cases", 1)
+			}
+		}
 		cls := c.obs
 		if i := strings.IndexByte(cls, ' '); i > 0 {
 			cls = cls[:i]
@@ -716,6 +752,153 @@ func previewOps(o *hlib.Out) {
 			op := fmt.Sprintf("preview s:%s n:%d", hexOrDash([]byte(s)), st)
 			o.Case(op, obs)
 			o.Class(op)
+		}
+	}
+}
+
+// ---- the column writers of the hex dump, driven directly ----------------------------------
+//
+// `asciiw W S L1,L2,…|L…` / `hexpw …`: a writer of width W and start offset S gets one Write per
+// `|`-separated chunk; byte i of the data is formatted to a string of Li bytes (what a byte colour
+// of that length does). Observation: bytes that reached the underlying writer and the final
+// buffer length, or `panic`.
+
+type countWriter struct{ n int }
+
+func (c *countWriter) Write(p []byte) (int, error) { c.n += len(p); return len(p), nil }
+
+func writerCase(o *hlib.Out, kind string, width, start int, chunks [][]int) {
+	var parts []string
+	for _, ch := range chunks {
+		ss := make([]string, len(ch))
+		for i, l := range ch {
+			ss[i] = strconv.Itoa(l)
+		}
+		parts = append(parts, strings.Join(ss, ","))
+	}
+	op := fmt.Sprintf("%s %d %d %s", kind, width, start, strings.Join(parts, "|"))
+	obs, panicked := hlib.Catch(func() string {
+		cw := &countWriter{}
+		// the data byte is the index into lens: at most 256 bytes per case
+		var lens []int
+		fn := func(b byte) string { return strings.Repeat("x", lens[int(b)]) }
+		k := 0
+		if kind == "asciiw" {
+			w := asciiwriter.New(cw, width, start, fn)
+			for _, ch := range chunks {
+				p := make([]byte, len(ch))
+				for i, l := range ch {
+					lens = append(lens, l)
+					p[i] = byte(k)
+					k++
+				}
+				if _, err := w.Write(p); err != nil {
+					return "err"
+				}
+			}
+			return fmt.Sprintf("ok %d %d", cw.n, asciiwriter.VerifC13BufLen(w))
+		}
+		w := hexpairwriter.New(cw, width, start, fn)
+		for _, ch := range chunks {
+			p := make([]byte, len(ch))
+			for i, l := range ch {
+				lens = append(lens, l)
+				p[i] = byte(k)
+				k++
+			}
+			if _, err := w.Write(p); err != nil {
+				return "err"
+			}
+		}
+		return fmt.Sprintf("ok %d %d", cw.n, hexpairwriter.VerifC13BufLen(w))
+	})
+	if panicked {
+		obs = "panic"
+	}
+	o.Case(op, obs)
+	o.Stat("direct_"+kind+"_cases", 1)
+	o.Class(fmt.Sprintf("%s %d %d %d", kind, width, start, len(chunks)))
+}
+
+// writerOps: exhaustive small domain (widths 1..3, every sequence of up to 2*width+1 formatted
+// lengths from a set around the buffer arithmetic's constants, split into one or two Writes)
+// and seeded random larger ones (widths up to 64, lengths up to 300).
+func writerOps(o *hlib.Out, cfg hlib.Config, rnd *hlib.Rand) {
+	// fixed witnesses: a line that fills the initial buffer (width*11+2) exactly
+	l16 := append([]int{12, 12}, make([]int, 15)...)
+	for i := 2; i < len(l16); i++ {
+		l16[i] = 11
+	}
+	for _, kind := range []string{"asciiw", "hexpw"} {
+		writerCase(o, kind, 2, 0, [][]int{{12, 12, 12}})
+		writerCase(o, kind, 16, 0, [][]int{l16})
+		writerCase(o, kind, 16, 3, [][]int{l16[:9], l16[9:]})
+		writerCase(o, kind, 4, 0, [][]int{{16, 16, 16, 16, 16, 16}})
+		writerCase(o, kind, 2, 0, [][]int{{199, 199, 199}})
+	}
+	lensA := []int{1, 11, 12, 13}
+	for _, kind := range []string{"asciiw", "hexpw"} {
+		for width := 1; width <= 3; width++ {
+			maxN := 2*width + 1
+			if !cfg.Thorough() && width == 3 {
+				maxN = 4
+			}
+			for start := 0; start <= 1; start++ {
+				var rec func(seq []int)
+				rec = func(seq []int) {
+					if len(seq) > 0 {
+						writerCase(o, kind, width, start, [][]int{seq})
+						if len(seq) > 1 {
+							cut := (len(seq) + 1) / 2
+							writerCase(o, kind, width, start, [][]int{seq[:cut], seq[cut:]})
+						}
+					}
+					if len(seq) == maxN {
+						return
+					}
+					for _, l := range lensA {
+						rec(append(append([]int(nil), seq...), l))
+					}
+				}
+				rec(nil)
+			}
+		}
+		n := 400
+		if cfg.Thorough() {
+			n = 6000
+		}
+		pick := []int{0, 1, 2, 3, 10, 11, 11, 11, 12, 12, 13, 16, 22, 23, 24, 150, 199, 200, 201, 285}
+		for i := 0; i < n; i++ {
+			width := []int{1, 2, 3, 4, 7, 8, 15, 16, 17, 32, 64}[rnd.Intn(11)]
+			start := rnd.Intn(width + 1)
+			total := rnd.Range(1, 3*width+2)
+			if total > 250 {
+				total = 250
+			}
+			// mostly 11 with a few 12: lines that fill the buffer exactly
+			var chunks [][]int
+			var cur []int
+			for j := 0; j < total; j++ {
+				l := 11
+				switch rnd.Intn(6) {
+				case 0:
+					l = 12
+				case 1:
+					l = pick[rnd.Intn(len(pick))]
+				}
+				if kind == "asciiw" && rnd.Intn(3) == 0 && j < 2 {
+					l = 12
+				}
+				cur = append(cur, l)
+				if rnd.Intn(2*width+1) == 0 {
+					chunks = append(chunks, cur)
+					cur = nil
+				}
+			}
+			if len(cur) > 0 {
+				chunks = append(chunks, cur)
+			}
+			writerCase(o, kind, width, start, chunks)
 		}
 	}
 }
